@@ -2,6 +2,7 @@ package mcp
 
 import (
 	"context"
+	"errors"
 	"iter"
 )
 
@@ -10,6 +11,8 @@ type c08Store struct {
 	inner EventStore
 	// ground truth: payloads in append order per "session|stream"
 	appended map[string][]string
+	// failNextRead: the next After yields its first item (if any) and then an error, once
+	failNextRead bool
 }
 
 func (s *c08Store) key(sess, stream string) string { return sess + "|" + stream }
@@ -24,6 +27,22 @@ func (s *c08Store) Append(ctx context.Context, sess, stream string, data []byte)
 	return err
 }
 func (s *c08Store) After(ctx context.Context, sess, stream string, idx int) iter.Seq2[[]byte, error] {
+	if s.failNextRead {
+		s.failNextRead = false
+		return func(yield func([]byte, error) bool) {
+			n := 0
+			for d, err := range s.inner.After(ctx, sess, stream, idx) {
+				if err != nil || n == 1 {
+					break
+				}
+				n++
+				if !yield(d, nil) {
+					return
+				}
+			}
+			yield(nil, errors.New("injected event store read fault"))
+		}
+	}
 	return s.inner.After(ctx, sess, stream, idx)
 }
 func (s *c08Store) SessionClosed(ctx context.Context, sess string) error {
